@@ -65,11 +65,24 @@ var c01RespFields = []string{"id", "nodes", "nodes6", "token", "values", "v", "k
 
 func genC01Tmpl(t *rapid.T) C01Tmpl {
 	tm := C01Tmpl{Y: pick(t, "y", "r", "r", "r", "r", "r", "e", "x", ""), Fields: map[string]string{}, EForm: pick(t, "eform", "absent", "absent", "absent", "list", "string", "empty-list", "garbage")}
+	// two styles: mostly well-formed replies with one or two twists (they get past the decoder and
+	// deep into the consumers), and chaotic ones
+	chaotic := uniformInt(t, 3, "chaotic") == 0
 	for _, f := range c01RespFields {
-		tm.Fields[f] = pick(t, "f."+f, "absent", "valid", "valid", "bad")
+		if chaotic {
+			tm.Fields[f] = pick(t, "f."+f, "absent", "valid", "valid", "bad")
+		} else {
+			tm.Fields[f] = pick(t, "f."+f, "absent", "absent", "absent", "absent", "valid", "valid", "valid", "valid", "valid", "bad")
+		}
+	}
+	if !chaotic {
+		tm.Y, tm.EForm = "r", "absent"
+		if tm.Fields["id"] == "absent" {
+			tm.Fields["id"] = "valid"
+		}
 	}
 	// special IDs: the node's own, all-zero
-	switch uniformInt(t, 8, "f.id.special") {
+	switch uniformInt(t, 6, "f.id.special") {
 	case 0:
 		tm.Fields["id"] = "own"
 	case 1:
@@ -324,7 +337,13 @@ func runC01(sc C01Sc, c *kit.Case) *kit.Violation {
 	}
 	switch sc.Op {
 	case "ping":
-		startOp(func() { sv.S.Ping(starting[0]) })
+		startOp(func() {
+			for round := 0; round < 3; round++ {
+				for _, a := range starting {
+					sv.S.Ping(a)
+				}
+			}
+		})
 	case "bootstrap":
 		startOp(func() { sv.S.Bootstrap() })
 	case "announce":
